@@ -23,6 +23,16 @@ def fmtStamp (t : Stamp) : List Char :=
   toDec t.dt.year ++ '-' :: toDecW 2 t.dt.month ++ '-' :: toDecW 2 t.dt.day ++ 'T' :: toDecW 2 t.dt.hour ++
     ':' :: toDecW 2 t.dt.minute ++ ':' :: toDecW 2 t.dt.second ++ '.' :: toDecW 6 t.us
 
+/-- `dtm.isoformat(timespec="microseconds")` (the year is zero-padded): the key of a saved-state entry, `repr(pkt)[:26]` -/
+def fmtIso (t : Stamp) : List Char :=
+  toDecW 4 t.dt.year ++ '-' :: toDecW 2 t.dt.month ++ '-' :: toDecW 2 t.dt.day ++ 'T' :: toDecW 2 t.dt.hour ++
+    ':' :: toDecW 2 t.dt.minute ++ ':' :: toDecW 2 t.dt.second ++ '.' :: toDecW 6 t.us
+
+/-- a saved-state entry `{repr(pkt)[:26]: repr(pkt)[27:]}` and what restoring reads back (`Packet.from_dict(key, value)`) -/
+def snapEntry (t : Stamp) (rest : List Char) : List Char × List Char :=
+  let r := fmtIso t ++ ' ' :: rest
+  (r.take 26, r.drop 27)
+
 /-- read `w` decimal digits from the front -/
 def takeDec (w : Nat) (s : List Char) : Option (Nat × List Char) :=
   if s.length < w then none else
